@@ -345,9 +345,26 @@ func (r *vRun) verifMatch(data any, got any, present bool, before int, input any
 	switch d := data.(type) {
 	case *infer.OptionalExpression:
 		ref := d.Expr.(*verifExpr)
-		produced := r.refProduced(ref, before)
+		// an optional expression may have several sources ("a + b"): it is produced when all of them are
+		produced := true
+		decided := true // every source finished, or one finished without producing
+		for _, x := range append([]*verifExpr{ref}, ref.also...) {
+			if !r.refProduced(x, before) {
+				produced = false
+			}
+			if !r.sourceFinished(x, before) {
+				decided = false
+			}
+		}
+		if !decided {
+			for _, x := range append([]*verifExpr{ref}, ref.also...) {
+				if r.sourceFinished(x, before) && !r.refProduced(x, before) {
+					decided = true
+				}
+			}
+		}
 		if d.WaitForCompletion {
-			verifrt.Assert(r.sourceFinished(ref, before), "a wait-optional field is evaluated only after its source has finished one way or the other")
+			verifrt.Assert(decided, "a wait-optional field is evaluated only after its source has finished one way or the other")
 			verifrt.Assert(present == produced, "a wait-optional field is present exactly when its source was produced")
 		}
 		if present {
